@@ -45,6 +45,7 @@ def check(ctx):
     ctx.run(parsers.check_zip_order)
     ctx.run(parsers.check_instance_cache)
     ctx.run(parsers.check_edge_exact)
+    ctx.run(parsers.check_token_order)
     ctx.run(patterns.check_patterns, ID)
 
 
